@@ -27,6 +27,12 @@ Proof.
   destruct alias as [a|]; [|reflexivity]. unfold alias_toks, alias_sql, fmt_alias, alias_suffix.
   rewrite flat_app, flat_one. reflexivity.
 Qed.
+Lemma flat_opndT qc sl t ts : flat qc (opndT sl t ts) = opnd sl t (flat qc ts).
+Proof. apply flat_ptoks. Qed.
+Lemma q_opc sl t c : q (opc sl t c) = q c.
+Proof. unfold opc. destruct (operand_parens sl (okind_of t) && negb operand_keeps_subc); reflexivity. Qed.
+Lemma wn_opc sl t c : wn (opc sl t c) = wn c.
+Proof. unfold opc. destruct (operand_parens sl (okind_of t) && negb operand_keeps_subc); reflexivity. Qed.
 Lemma flat_jtoks qc sep l : flat qc (jtoks sep l) = join sep (map (flat qc) l).
 Proof.
   induction l as [|x r IH]; [reflexivity|]. destruct r as [|y r']; [reflexivity|].
@@ -49,8 +55,8 @@ Definition Rw (l : wlist) := forall c, render_whens c l = rmap (map (flat (q c))
 Definition Ro (o : oterm) := match o with ONone => True | OSome t => Rt t end.
 
 Ltac unf := cbn [render rtoks render_list rtoks_list render_whens rtoks_whens].
-Ltac qs := cbn [q set_wa set_subq set_subc fctx].
-Ltac norm := repeat (rewrite ?flat_app, ?flat_cons, ?flat_nil, ?flat_ptoks, ?flat_alias, ?flat_jtoks, ?flat_one);
+Ltac qs := rewrite ?q_opc; cbn [q set_wa set_subq set_subc fctx].
+Ltac norm := repeat (rewrite ?flat_opndT, ?flat_app, ?flat_cons, ?flat_nil, ?flat_ptoks, ?flat_alias, ?flat_jtoks, ?flat_one);
              cbn [tok_text]; rewrite ?sapp_assoc, ?sapp_nil_r.
 Ltac leaf := intros; unf; cbn [bind rmap]; rewrite flat_one; reflexivity.
 
@@ -68,34 +74,35 @@ Proof.
   - (* TStar *) intros tbl c. unf. cbn [rmap]. f_equal. rewrite flat_cons, flat_nil, sapp_nil_r. cbn [tok_text].
     unfold ref_text, qualifier. destruct tbl as [tb|]; [|reflexivity]. destruct (wn c || truthy_ostr (talias tb)); reflexivity.
   - leaf. - leaf. - leaf. - leaf. - leaf. - leaf. - leaf.
-  - (* TNeg *) intros t IH c. unf. rewrite IH. destruct (rtoks c t); cbn [bind rmap]; [|reflexivity]. reflexivity.
+  - (* TNeg *) intros t IH c. unf. rewrite IH. qs.
+    destruct (rtoks (opc SNeg t c) t); cbn [bind rmap]; [|reflexivity]. f_equal. norm. reflexivity.
   - (* TArith *) intros op l IHl r IHr alias c. unf. rewrite IHl, IHr. qs.
-    destruct (rtoks (set_wa c false) l); cbn [bind rmap]; [|reflexivity].
-    destruct (rtoks (set_wa c false) r); cbn [bind rmap]; [|reflexivity].
+    destruct (rtoks (opc SArithL l (set_wa c false)) l); cbn [bind rmap]; [|reflexivity].
+    destruct (rtoks (opc SArithR r (set_wa c false)) r); cbn [bind rmap]; [|reflexivity].
     f_equal. destruct (wa c); norm; reflexivity.
   - (* TBasic *) intros cm l IHl r IHr alias c. unf. rewrite IHl, IHr. qs.
-    destruct (rtoks (set_wa c false) l); cbn [bind rmap]; [|reflexivity].
-    destruct (rtoks (set_wa c false) r); cbn [bind rmap]; [|reflexivity].
+    destruct (rtoks (opc SCmpL l (set_wa c false)) l); cbn [bind rmap]; [|reflexivity].
+    destruct (rtoks (opc SCmpR r (set_wa c false)) r); cbn [bind rmap]; [|reflexivity].
     f_equal. destruct (wa c); norm; reflexivity.
   - (* TCplx *) intros bo l IHl r IHr alias c. unf. rewrite IHl, IHr. qs.
     destruct (rtoks (set_subc c (needs_brackets_x bo (top_bop l))) l); cbn [bind rmap]; [|reflexivity].
     destruct (rtoks (set_subc c (needs_brackets_x bo (top_bop r))) r); cbn [bind rmap]; [|reflexivity].
     f_equal. norm. reflexivity.
   - (* TIn *) intros t IHt cont IHc negated alias c. unf. rewrite IHt, IHc. qs.
-    destruct (rtoks (set_subq c false) t); cbn [bind rmap]; [|reflexivity].
+    destruct (rtoks (opc SInTerm t (set_subq c false)) t); cbn [bind rmap]; [|reflexivity].
     destruct (rtoks (set_subq c true) cont); cbn [bind rmap]; [|reflexivity].
     f_equal. norm. reflexivity.
-  - (* TBetween *) intros t IHt lo IHlo hi IHhi alias c. unf. rewrite IHt, IHlo, IHhi.
-    destruct (rtoks c t); cbn [bind rmap]; [|reflexivity].
-    destruct (rtoks c lo); cbn [bind rmap]; [|reflexivity].
-    destruct (rtoks c hi); cbn [bind rmap]; [|reflexivity].
+  - (* TBetween *) intros t IHt lo IHlo hi IHhi alias c. unf. rewrite IHt, IHlo, IHhi. qs.
+    destruct (rtoks (opc SBetTerm t c) t); cbn [bind rmap]; [|reflexivity].
+    destruct (rtoks (opc SBetLo lo c) lo); cbn [bind rmap]; [|reflexivity].
+    destruct (rtoks (opc SBetHi hi c) hi); cbn [bind rmap]; [|reflexivity].
     f_equal. norm. reflexivity.
   - (* TBitAnd *) intros t IHt v alias c. unf. rewrite IHt.
     destruct (rtoks c t); cbn [bind rmap]; [|reflexivity]. f_equal. norm. reflexivity.
   - (* TIsNull *) intros t IHt alias c. unf. rewrite IHt. qs.
-    destruct (rtoks (set_wa c false) t); cbn [bind rmap]; [|reflexivity]. f_equal. norm. reflexivity.
+    destruct (rtoks (opc SIsNull t (set_wa c false)) t); cbn [bind rmap]; [|reflexivity]. f_equal. norm. reflexivity.
   - (* TNotNull *) intros t IHt alias c. unf. rewrite IHt. qs.
-    destruct (rtoks (set_wa c false) t); cbn [bind rmap]; [|reflexivity]. f_equal. norm. reflexivity.
+    destruct (rtoks (opc SNotNull t (set_wa c false)) t); cbn [bind rmap]; [|reflexivity]. f_equal. norm. reflexivity.
   - (* TNot *) intros t IHt alias c. unf. rewrite IHt. qs.
     destruct (rtoks (set_subc c true) t); cbn [bind rmap]; [|reflexivity]. f_equal. norm. reflexivity.
   - (* TAll *) intros t IHt alias c. unf. rewrite IHt.
@@ -155,6 +162,8 @@ Lemma okl_text w s r : okl w (KText s :: r) = okl w r.
 Proof. reflexivity. Qed.
 Lemma okl_ptoks w b ts : okl w (ptoks b ts) = okl w ts.
 Proof. destruct b; [|reflexivity]. unfold ptoks. rewrite okl_text, okl_app. cbn. apply andb_true_r. Qed.
+Lemma okl_opndT w sl t ts : okl w (opndT sl t ts) = okl w ts.
+Proof. apply okl_ptoks. Qed.
 Lemma okl_alias w c qc ts alias : okl w (alias_toks c qc ts alias) = okl w ts.
 Proof. destruct alias; [|reflexivity]. unfold alias_toks. rewrite okl_app. cbn. apply andb_true_r. Qed.
 Lemma okl_jtoks w sep l : okl w (jtoks sep l) = forallb (okl w) l.
@@ -171,6 +180,8 @@ Lemma tt_text s r : tok_tables (KText s :: r) = tok_tables r.
 Proof. reflexivity. Qed.
 Lemma tt_ptoks b ts : tok_tables (ptoks b ts) = tok_tables ts.
 Proof. destruct b; [|reflexivity]. unfold ptoks. rewrite tt_text, tt_app. cbn. apply app_nil_r. Qed.
+Lemma tt_opndT sl t ts : tok_tables (opndT sl t ts) = tok_tables ts.
+Proof. apply tt_ptoks. Qed.
 Lemma tt_alias c qc ts alias : tok_tables (alias_toks c qc ts alias) = tok_tables ts.
 Proof. destruct alias; [|reflexivity]. unfold alias_toks. rewrite tt_app. cbn. apply app_nil_r. Qed.
 Lemma tt_jtoks sep l : tok_tables (jtoks sep l) = List.concat (map tok_tables l).
@@ -192,9 +203,9 @@ Ltac inv_bind H :=
   repeat match type of H with
   | bind ?x _ = Ok _ => let E := fresh "E" in destruct x eqn:E; cbn [bind] in H; [|discriminate H]
   end.
-Ltac wns := cbn [wn set_wa set_subq set_subc fctx] in *.
-Ltac simp_ok := repeat (rewrite ?okl_app, ?okl_text, ?okl_ptoks, ?okl_alias, ?okl_jtoks); cbn [okl forallb ref_okb andb].
-Ltac simp_tt := repeat (rewrite ?tt_app, ?tt_text, ?tt_ptoks, ?tt_alias, ?tt_jtoks); cbn [tok_tables flat_map app].
+Ltac wns := rewrite ?wn_opc in *; cbn [wn set_wa set_subq set_subc fctx] in *.
+Ltac simp_ok := repeat (rewrite ?okl_opndT, ?okl_app, ?okl_text, ?okl_ptoks, ?okl_alias, ?okl_jtoks); cbn [okl forallb ref_okb andb].
+Ltac simp_tt := repeat (rewrite ?tt_opndT, ?tt_app, ?tt_text, ?tt_ptoks, ?tt_alias, ?tt_jtoks); cbn [tok_tables flat_map app].
 Ltac leafK := intros; match goal with H : rtoks _ _ = Ok _ |- _ => cbn [rtoks render bind] in H; inversion H; subst; split; reflexivity end.
 
 Lemma rtoks_refs_all : (forall t, Kt t) /\ (forall l, Kl l) /\ (forall l, Kw l) /\ (forall o, Ko o).
@@ -206,7 +217,7 @@ Proof.
     simp_ok; simp_tt; rewrite ?ostr_eqb_refl; split; reflexivity.
   - leafK. - leafK. - leafK. - leafK. - leafK. - leafK. - leafK.
   - (* TNeg *) intros t IH c ts H. cbn [rtoks] in H. inv_bind H. inversion H; subst; clear H.
-    destruct (IH _ _ E) as [A B]. simp_ok. simp_tt. cbn [field_tables]. split; assumption.
+    destruct (IH _ _ E) as [A B]. wns. simp_ok. simp_tt. cbn [field_tables]. split; assumption.
   - (* TArith *) intros op l IHl r IHr alias c ts H. cbn [rtoks] in H. inv_bind H.
     destruct (IHl _ _ E) as [A1 B1]. destruct (IHr _ _ E0) as [A2 B2]. wns.
     destruct (wa c); inversion H; subst; clear H; simp_ok; simp_tt; rewrite A1, A2, B1, B2; split; reflexivity.
@@ -220,7 +231,7 @@ Proof.
     destruct (IHt _ _ E) as [A1 B1]. destruct (IHc _ _ E0) as [A2 B2]. wns.
     inversion H; subst; clear H; simp_ok; simp_tt; rewrite A1, A2, B1, B2; split; reflexivity.
   - (* TBetween *) intros t IHt lo IHlo hi IHhi alias c ts H. cbn [rtoks] in H. inv_bind H.
-    destruct (IHt _ _ E) as [A1 B1]. destruct (IHlo _ _ E0) as [A2 B2]. destruct (IHhi _ _ E1) as [A3 B3].
+    destruct (IHt _ _ E) as [A1 B1]. destruct (IHlo _ _ E0) as [A2 B2]. destruct (IHhi _ _ E1) as [A3 B3]. wns.
     inversion H; subst; clear H; simp_ok; simp_tt; rewrite A1, A2, A3, B1, B2, B3; split; reflexivity.
   - (* TBitAnd *) intros t IHt v alias c ts H. cbn [rtoks] in H. inv_bind H. destruct (IHt _ _ E) as [A1 B1].
     inversion H; subst; clear H; simp_ok; simp_tt; rewrite A1, B1, ?app_nil_r; split; reflexivity.
